@@ -108,6 +108,13 @@ fn main() {
                 }
             }
             ["collect"] => force_collect(),
+            ["collectb", a] => {
+                if let Some(i) = find(&w, p(a)) {
+                    let guard = w.ext[i].1.edges.borrow_mut();
+                    force_collect();
+                    drop(guard);
+                }
+            }
             _ => { writeln!(out, "bad-op").unwrap(); continue; }
         }
         writeln!(out, "{}", observe(&w)).unwrap();
